@@ -12,12 +12,16 @@ from lib.tocoq import Nat, term, val
 
 PROP = "C08"
 PROPS_FILE = "props/C08.v"
-GEN: list[str] = []
+GEN = ["gen_reshard", "gen_chunk"]
 CORRESPONDENCES = [
     "overlap:_check_shard_metadata_pair_overlap+overlap_region~model",
     "write:prepare_write/subdivide_shard~model",
     "read:prepare_read+consumers~model",
     "merge:_get_merged_sharded_tensor_entries~model",
+    "gen:model/ReshardGenObs.v builds on the generated terms",
+    "gen-overlap:_shards_get_overlap_region_wrt_saved_tensor~generated loop",
+    "gen-write:prepare_write/subdivide_shard~generated arithmetic",
+    "gen-read:prepare_read+consumers+shapes~generated plan, views, shapes",
 ]
 RULE = ("overlap: every pair of boxes with offsets 0..3/sizes 0..3 (1-D) and offsets 0..2/sizes 0..2 (2-D), plus random "
         "3-D pairs, through torch's _check_shard_metadata_pair_overlap and _shards_get_overlap_region_wrt_saved_tensor; "
@@ -29,22 +33,34 @@ RULE = ("overlap: every pair of boxes with offsets 0..3/sizes 0..3 (1-D) and off
         "float32, uint8, bfloat16; thorough tier adds all pairs of grid partitions (0..2 cuts per axis) for shapes (1..5,), 3x3, 4x2, 2x4, "
         "1x3, 4x3, 3x4, 4x4, 2x2x2, 2x2x3, 3x2x2, each under three thresholds, plus dense/None/other-shape targets. synthetic: hand-made ShardedTensorEntry lists from random guillotine (non-grid) partitions, shards spread "
         "over ranks and slab byte ranges, merged by the real _get_merged_sharded_tensor_entries or shuffled, optionally "
-        "with holes. A case is non-trivial when at least one element is copied; distinct by content hash.")
+        "with holes. A case is non-trivial when at least one element is copied; distinct by content hash. Every case is "
+        "evaluated twice inside coqc: by the hand-written model (model/Reshard.v) and by the terms regenerated from the "
+        "source in this run (gen/ReshardGen.v, gen/ChunkGen.v through model/ReshardGenObs.v): regions with their dims, "
+        "the requests with path / byte range / entry, final contents, both shape computations, the dense box.")
 TRUSTED = [
     "Coq 8.16.1 kernel and its vm_compute VM (no native_compute)",
-    "hand-written model coq/model/Reshard.v tied to the code by differential runs (this harness); torch.narrow / "
-    "Tensor.copy_ / ShardedTensor metadata and torch's _check_shard_metadata_pair_overlap are runtime, modelled not verified "
-    "(the overlap test is validated exhaustively on small boxes every run)",
+    "translator/gen_reshard.py (Python ast -> Gallina, fail closed, regenerated on every run): the loop of "
+    "_shards_get_overlap_region_wrt_saved_tensor, _OverlappingRegion.get_views, the copy of consume_buffer, both loops of "
+    "prepare_read (loop nest, skip conditions, the three dictionary-key expressions, saved/current argument order, ReadReq "
+    "fields), _get_global_shape, _validate_shape, ShardedTensorEntry.get_tensor_shape; translator/gen_chunk.py for the "
+    "arithmetic of subdivide_shard.  The per-run proof obligations are the instantiation lemmas of coq/proofs/ReshardInst.v",
+    "hand-written parts of coq/model/Reshard.v that the generated terms are phrased in: boxes, tensors as functions, "
+    "views as (offset vector, shape) with torch.narrow moving the offset, copy_ between views, torch's "
+    "_check_shard_metadata_pair_overlap (validated exhaustively on small boxes every run), the store lookup by "
+    "(path, byte_range), subdivide_shard's list updates, the dispatch on type(obj_out), the merge of per-rank entries; "
+    "all tied to the code by differential runs of the generated terms and of the hand model against the real classes",
     "harness/props/C08.py generators, oracle, canonicalisation and lib/tocoq.py literal printer",
 ]
 ASSUMPTIONS = [
     "offsets and sizes of every shard have the tensor's number of dimensions; sizes are non-negative",
-    "saved shards are pairwise disjoint and have distinct (location, byte_range)",
+    "saved shards are pairwise disjoint and have distinct (location, byte_range); locations are compared as strings "
+    "(the model numbers them by first occurrence), a byte range is None or a pair of integers",
     "destination shards do not alias each other's storage",
     "DTensor placement arithmetic (compute_local_shape_and_global_offset) is torch's and is not modelled",
 ]
 
 IMPORTS = "From TS Require Import model.Reshard.\n"
+GEN_IMPORTS = "From TS Require Import model.Reshard model.ReshardGenObs.\n"
 DTYPES = ["int64", "int32", "float32", "uint8", "bfloat16"]
 ESIZE = {"int64": 8, "int32": 4, "float32": 4, "uint8": 1, "bfloat16": 2}
 BAD_ID = -7777
@@ -235,18 +251,20 @@ def C08_write_phase(case, loop):
 
 
 def C08_saved_obs(entry, store, dtype):
-    """[(offsets, sizes, key, ids)] in entry order; key = first-occurrence index of (location, byte_range)"""
-    keys = {}
+    """[(offsets, sizes, key, ids)] in entry order; key = [location id, lo, hi] ([location id] when the entry has no
+    byte range), location id = first-occurrence index of the location string.  Returns (list, location ids)."""
+    locs = {}
     out = []
     for sh in entry.shards:
-        kb = (sh.tensor.location, sh.tensor.byte_range_tuple)
-        k = keys.setdefault(kb, len(keys))
+        k = [locs.setdefault(sh.tensor.location, len(locs))]
+        if sh.tensor.byte_range is not None:
+            k += [int(sh.tensor.byte_range[0]), int(sh.tensor.byte_range[1])]
         buf = store.get(sh.tensor.location)
         if buf is not None and sh.tensor.byte_range is not None:
             buf = buf[sh.tensor.byte_range[0]:sh.tensor.byte_range[1]]
         ids = None if buf is None else C08_decode(buf, dtype, sh.sizes)
-        out.append((list(sh.offsets), list(sh.sizes), [k], ids))
-    return out
+        out.append((list(sh.offsets), list(sh.sizes), k, ids))
+    return out, locs
 
 
 def C08_make_dst(dst, dtype):
@@ -272,8 +290,8 @@ def C08_make_dst(dst, dtype):
     return st, [(list(b[0]), list(b[1])) for b in boxes], inits
 
 
-def C08_read_phase(entry, store, dst, dtype, order_seed, loop):
-    """real prepare_read + consumers. Returns dict(reqs, final, dst_boxes, inits, gshape, tshape, notes)."""
+def C08_read_phase(entry, store, dst, dtype, order_seed, loop, locs=None):
+    """real prepare_read + consumers. Returns dict(reqs, greqs, final, dst_boxes, inits, gshape, tshape, out_shape, notes)."""
     import random
     import torch
     from torch.distributed._shard.sharded_tensor import ShardedTensor
@@ -294,6 +312,7 @@ def C08_read_phase(entry, store, dst, dtype, order_seed, loop):
         raise C08Raised("prepare_read", e)
     out = fut.obj
     notes = []
+    out_shape = (list(out.metadata().size) if isinstance(out, ShardedTensor) else list(out.shape)) if out is not None else []
     if obj_out is None:
         if not (type(out) is torch.Tensor):
             notes.append(f"obj_out=None returned {type(out).__name__}")
@@ -314,6 +333,7 @@ def C08_read_phase(entry, store, dst, dtype, order_seed, loop):
                 dst_boxes = got
     # observed plan -------------------------------------------------------------
     reqs = []
+    greqs = []
     for rr in rrs:
         c = rr.buffer_consumer
         js = [j for j, sh in enumerate(entry.shards) if sh.tensor is c.entry]
@@ -327,6 +347,8 @@ def C08_read_phase(entry, store, dst, dtype, order_seed, loop):
                 notes.append("overlap_region dims are not 0..n-1 in order")
             regs.append([ii[0] if ii else -1, [[x[1], x[2], x[3]] for x in r.overlap_region]])
         reqs.append([j, regs])
+        greqs.append([j, (locs or {}).get(rr.path, -1), [] if rr.byte_range is None else [int(rr.byte_range[0]), int(rr.byte_range[1])],
+                      [[i, [[int(v) for v in x] for x in r.overlap_region]] for (i, _), r in zip(regs, c.overlapping_regions)]])
     # consume in a shuffled order (the read pipeline completes requests in any order) ---------
     order = list(range(len(rrs)))
     random.Random(order_seed).shuffle(order)
@@ -340,8 +362,8 @@ def C08_read_phase(entry, store, dst, dtype, order_seed, loop):
     except Exception as e:
         raise C08Raised("consume_buffer", e)
     final = [C08_ids(t) for t in dst_tensors]
-    return {"reqs": reqs, "final": final, "dst_boxes": dst_boxes, "inits": inits, "gshape": gshape, "tshape": tshape,
-            "notes": notes}
+    return {"reqs": reqs, "greqs": greqs, "final": final, "dst_boxes": dst_boxes, "inits": inits, "gshape": gshape,
+            "tshape": tshape, "out_shape": out_shape, "notes": notes}
 
 
 # --------------------------------------------------------------------------- the oracle (the property itself)
@@ -408,6 +430,14 @@ def C08_read_term(saved, dst_boxes, inits):
 def C08_read_val(obs):
     reqs = [[j, [[i, reg] for i, reg in regs]] for j, regs in obs["reqs"]]
     return val([reqs, obs["final"], obs["final"], [obs["gshape"]], [obs["tshape"]]])
+
+
+def C08_read_gen_term(saved, obs, dense):
+    return f"(({C08_read_term(saved, obs['dst_boxes'], obs['inits'])}, {term(list(obs['out_shape']))}), {'true' if dense else 'false'})"
+
+
+def C08_read_gen_val(obs):
+    return val([[obs["greqs"]], [obs["final"]], [obs["gshape"]], [obs["tshape"]]])
 
 
 # --------------------------------------------------------------------------- case generation
@@ -535,7 +565,7 @@ def C08_build_synthetic(case):
 # --------------------------------------------------------------------------- one case through everything
 def C08_run_case(case, loop):
     """Runs the real code on one case. Returns (failures, coq_write or None, coq_read or None, coq_merge or None,
-    nontrivial, notes)."""
+    nontrivial, notes, coq_read_gen or None)."""
     from torchsnapshot.manifest import ShardedTensorEntry
     from torchsnapshot.manifest_ops import _get_merged_sharded_tensor_entries
 
@@ -546,7 +576,7 @@ def C08_run_case(case, loop):
     try:
         if case["kind"] == "e2e":
             entry, store, sdim = C08_write_phase(case, loop)
-            saved = C08_saved_obs(entry, store, dtype)
+            saved, locs = C08_saved_obs(entry, store, dtype)
             truth = [([0] * len(shape), list(shape))]        # the source sharded tensor covers its whole index space
             # write oracle: the saved shards are a partition of the index space holding G restricted
             cover = {}
@@ -575,7 +605,7 @@ def C08_run_case(case, loop):
                 entry = _get_merged_sharded_tensor_entries(manifests)["x"]
             else:
                 entry = ShardedTensorEntry(shards=[s for e in rank_entries for s in e.shards])
-            saved = C08_saved_obs(entry, store, dtype)
+            saved, locs = C08_saved_obs(entry, store, dtype)
             if case["merged"]:
                 # keys local to the merge observation: index of the shard in rank-major input order
                 flat = [s for e in rank_entries for s in e.shards]
@@ -585,16 +615,19 @@ def C08_run_case(case, loop):
                 coq_merge = (inp, val([[[i for i, f in enumerate(flat) if f is s][0]] for s in entry.shards]))
         if any(s[3] is None for s in saved):
             fails.append(Failure("C08:saved-shard-payload-size-wrong", "staged payload length differs from its entry", case))
-            return fails, coq_write, None, coq_merge, False, []
-        obs = C08_read_phase(entry, store, case["dst"], dtype, case["order_seed"], loop)
+            return fails, coq_write, None, coq_merge, False, [], None
+        obs = C08_read_phase(entry, store, case["dst"], dtype, case["order_seed"], loop, locs)
     except C08Raised as e:
         fails.append(Failure(f"C08:raised:{e.stage}:{type(e.exc).__name__}", str(e)[:300], case))
-        return fails, coq_write, None, coq_merge, False, []
+        return fails, coq_write, None, coq_merge, False, [], None
     fails += C08_oracle(case, truth, obs, lambda g: C08_gid(shape, g))
     fails += C08_plan_oracle(case, [(s[0], s[1]) for s in saved], obs)
     coq_read = (C08_read_term(saved, obs["dst_boxes"], obs["inits"]), C08_read_val(obs))
+    dense = case["dst"]["kind"] in ("dense", "none") and len(obs["dst_boxes"]) == 1
+    shared = len({s[2][0] for s in saved}) < len(saved)
+    coq_read_gen = (C08_read_gen_term(saved, obs, dense), C08_read_gen_val(obs), shared)
     nontrivial = any(f != i for fin, ini in zip(obs["final"], obs["inits"]) for f, i in zip(fin, ini))
-    return fails, coq_write, coq_read, coq_merge, nontrivial, obs["notes"]
+    return fails, coq_write, coq_read, coq_merge, nontrivial, obs["notes"], coq_read_gen
 
 
 def C08_case_summary(case):
@@ -621,7 +654,7 @@ def C08_overlap_pairs(ctx: Ctx):
     return pairs
 
 
-def C08_check_overlap(ctx: Ctx, res: Result):
+def C08_check_overlap(ctx: Ctx, res: Result, gen_ok: bool = False):
     from torch.distributed._shard.sharded_tensor import ShardMetadata
     from torch.distributed._shard.sharding_spec._internals import _check_shard_metadata_pair_overlap
     from torchsnapshot.io_preparers.sharded_tensor import ShardedTensorIOPreparer
@@ -629,6 +662,7 @@ def C08_check_overlap(ctx: Ctx, res: Result):
     pairs = C08_overlap_pairs(ctx)
     where = CORRESPONDENCES[0]
     obs = []
+    obs4 = []
     for a, b in pairs:
         ma = ShardMetadata(shard_offsets=list(a[0]), shard_sizes=list(a[1]), placement="cpu")
         mb = ShardMetadata(shard_offsets=list(b[0]), shard_sizes=list(b[1]), placement="cpu")
@@ -637,6 +671,7 @@ def C08_check_overlap(ctx: Ctx, res: Result):
         if [x[0] for x in reg] != list(range(len(a[0]))):
             res.mismatches.append(Mismatch(where, {"saved": a, "current": b}, reg, "dims not 0..n-1"))
         obs.append([ov, [[x[1], x[2], x[3]] for x in reg]])
+        obs4.append([[int(v) for v in x] for x in reg])
         res.count("overlap.ndims", len(a[0]))
         res.count("overlap.result", ov)
     batch = 400
@@ -658,6 +693,16 @@ def C08_check_overlap(ctx: Ctx, res: Result):
         if not bad2:
             res.mismatches.append(Mismatch(where, f"batch {bk}", None, None))
     res.traces_validated += len(pairs)
+    if gen_ok:
+        # the loop regenerated from the source, one pair per case (with the dimension numbers)
+        where = CORRESPONDENCES[5]
+        single = [(f"(({term(a[0])}, {term(a[1])}), ({term(b[0])}, {term(b[1])}))", val(o)) for (a, b), o in zip(pairs, obs4)]
+        bad, errs = coqrun.run_cases("C08_ovg", GEN_IMPORTS, "obs_region_gen", single, shard=400)
+        for e in errs:
+            res.mismatches.append(Mismatch(where, "coqc error", None, e))
+        for i in bad[:10]:
+            res.mismatches.append(Mismatch(where, {"saved": pairs[i][0], "current": pairs[i][1]}, obs4[i], None))
+        res.traces_validated += len(pairs)
 
 
 # --------------------------------------------------------------------------- driver
@@ -691,18 +736,28 @@ def C08_quiet():
     logging.getLogger("torchsnapshot.io_preparers.sharded_tensor").setLevel(logging.ERROR)
 
 
+def C08_gen_model(res: Result) -> bool:
+    """build the model over the generated terms (it must run even when an instantiation lemma no longer checks)"""
+    ok, out, _ = coqrun.make(["model/ReshardGenObs.vo"])
+    if not ok:
+        res.mismatches.append(Mismatch(CORRESPONDENCES[4], "make model/ReshardGenObs.vo", None,
+                                       f"{coqrun.failing_file(out)}: {coqrun.error_excerpt(out, 12)}"))
+    return ok
+
+
 def correspond(ctx: Ctx) -> Result:
     C08_quiet()
     res = Result(rule=RULE)
     res.exhaustive = ctx.thorough
+    gen_ok = C08_gen_model(res)
     with C08Group(ctx):
-        C08_check_overlap(ctx, res)
+        C08_check_overlap(ctx, res, gen_ok)
         cases = C08_cases(ctx)
         loop = asyncio.new_event_loop()
-        cw, cr, cm = [], [], []
+        cw, cr, cm, cg = [], [], [], []
         try:
             for case in cases:
-                fails, w, r, m, nontrivial, notes = C08_run_case(case, loop)
+                fails, w, r, m, nontrivial, notes, g = C08_run_case(case, loop)
                 res.failures += fails
                 res.case(C08_case_summary(case), nontrivial)
                 res.count("case.kind", case["kind"])
@@ -725,11 +780,18 @@ def correspond(ctx: Ctx) -> Result:
                     cr.append((r, case))
                 if m is not None:
                     cm.append((m, case))
+                if g is not None:
+                    cg.append((g[:2], case))
+                    res.count("case.saved_shards_share_a_location", g[2])
         finally:
             loop.close()
-    for tag, where, fn, lst in (("C08_w", CORRESPONDENCES[1], "obs_write", cw), ("C08_r", CORRESPONDENCES[2], "obs_read", cr),
-                                ("C08_m", CORRESPONDENCES[3], "obs_merge", cm)):
-        bad, errs = coqrun.run_cases(tag, IMPORTS, fn, [x[0] for x in lst], shard=250)
+    runs = [("C08_w", CORRESPONDENCES[1], IMPORTS, "obs_write", cw), ("C08_r", CORRESPONDENCES[2], IMPORTS, "obs_read", cr),
+            ("C08_m", CORRESPONDENCES[3], IMPORTS, "obs_merge", cm)]
+    if gen_ok:
+        runs += [("C08_wg", CORRESPONDENCES[6], GEN_IMPORTS, "obs_write_gen", cw),
+                 ("C08_rg", CORRESPONDENCES[7], GEN_IMPORTS, "obs_read_gen", cg)]
+    for tag, where, imports, fn, lst in runs:
+        bad, errs = coqrun.run_cases(tag, imports, fn, [x[0] for x in lst], shard=250)
         for e in errs:
             res.mismatches.append(Mismatch(where, "coqc error", None, e))
         for i in bad[:20]:
@@ -750,22 +812,33 @@ def replay(ctx: Ctx, data):
 
 
 MANIFEST = {
-    "level_text": ("Machine-checked proof (Coq 8.16.1) over an executable model of ShardedTensorIOPreparer "
-                   "(subdivide_shard, _shards_get_overlap_region_wrt_saved_tensor, prepare_read's grouping by "
-                   "(location, byte_range), the consumers' narrow+copy_, both global-shape computations) and of the merge of "
-                   "per-rank entries: for any number of dimensions and any boxes the overlap region is exactly the "
-                   "intersection; loading pairwise-disjoint saved shards that hold the global tensor into any destination "
-                   "shards (or a dense tensor) writes every destination element from the unique saved shard containing it "
-                   "and leaves all others untouched, independently of the order of the saved shards; every needed saved "
-                   "shard is read exactly once; subdivision preserves the disjoint cover. The model is tied to the code on "
-                   "every run by differential execution: real ShardedTensors (world-size-1 gloo group), the real "
-                   "prepare_write / prepare_read / consumers over an in-memory store, compared element by element with the "
-                   "property oracle and with the model evaluated inside coqc (vm_compute)."),
-    "level_note": ("Trusted: Coq kernel + VM; hand-written model (coq/model/Reshard.v) and the differential harness; torch.narrow, "
-                   "Tensor.copy_, ShardedTensor metadata and torch's _check_shard_metadata_pair_overlap are runtime behaviour "
-                   "(modelled; the overlap test is validated exhaustively on small boxes every run). DTensor placement arithmetic "
-                   "is torch's and is not modelled. Theorems are closed under the global context (no axioms)."),
-    "technique": "Coq proof (per-dimension interval arithmetic lifted to n-D boxes, fold invariants, permutation invariance) "
-                 "with vm_compute correspondence against the real preparers",
+    "level_text": ("Machine-checked proof (Coq 8.16.1) about terms REGENERATED FROM THE SOURCE on every run "
+                   "(translator/gen_reshard.py, Python ast -> Gallina, fail closed: the loop of "
+                   "_shards_get_overlap_region_wrt_saved_tensor with the order of its zipped lists and of the appended tuple, "
+                   "_OverlappingRegion.get_views, the copy of consume_buffer, both loops of prepare_read - loop nest, skip "
+                   "conditions, the dictionary key at the insertion / membership / lookup sites, the saved/current argument "
+                   "order, the ReadReq fields -, _get_global_shape, _validate_shape, ShardedTensorEntry.get_tensor_shape; "
+                   "translator/gen_chunk.py for the arithmetic of subdivide_shard). Instantiation lemmas "
+                   "(coq/proofs/ReshardInst.v, semantic where cheap) show the generated terms equal the hand-written model, and "
+                   "the property theorems are restated over the generated terms: for any number of dimensions and any boxes the "
+                   "generated region is exactly the intersection; the generated prepare_read executed with the generated "
+                   "consumers on pairwise-disjoint saved shards with distinct (location, byte_range) writes every destination "
+                   "element (sharded or dense, any shape) from the unique saved shard containing it and leaves all others "
+                   "untouched, independently of the order of the saved shards; every needed saved shard is read exactly once "
+                   "under its own path and byte range; subdivision preserves the disjoint cover; both global-shape "
+                   "computations return the shape of a partition. What stays hand-modelled (tensors, views, narrow/copy_, the "
+                   "overlap test of torch, the store) is tied to the code on every run by differential execution: real "
+                   "ShardedTensors (world-size-1 gloo group), the real prepare_write / prepare_read / consumers over an "
+                   "in-memory store, compared element by element with the property oracle and with BOTH the generated terms "
+                   "and the hand model evaluated inside coqc (vm_compute)."),
+    "level_note": ("Trusted: Coq kernel + VM; the translators gen_reshard.py / gen_chunk.py; the hand-written vocabulary of "
+                   "coq/model/Reshard.v (tensors as functions, views as offset+shape, torch.narrow, Tensor.copy_, the store "
+                   "lookup, torch's _check_shard_metadata_pair_overlap - validated exhaustively on small boxes every run) and "
+                   "the differential harness. Not translated: subdivide_shard's list updates and narrow, the dispatch on "
+                   "type(obj_out), deserialisation, the merge of per-rank entries (all covered by the correspondences). DTensor "
+                   "placement arithmetic is torch's and is not modelled. Theorems are closed under the global context (no axioms)."),
+    "technique": "Coq proof over terms translated from the Python source on every run (instantiation lemmas + per-dimension "
+                 "interval arithmetic lifted to n-D boxes, fold invariants, permutation invariance) with vm_compute "
+                 "correspondence of the generated terms and of the hand model against the real preparers",
     "design_ref": "DESIGN.md section 5, C08",
 }
